@@ -21,7 +21,10 @@ pub fn len_biased(rng: &mut Rng, max: usize) -> usize {
 }
 
 pub fn alphabet(rng: &mut Rng) -> Vec<u8> {
-    match rng.below(12) {
+    match rng.below(14) {
+        // text-like: the bytes the default frequency table ranks most common
+        12 => vec![b' ', b'e', b't', b'a', b'o'],
+        13 => vec![b' ', b'e', b't', 0xC3, 0xA9, 0xE2],
         0..=2 => vec![b'a'],
         3..=5 => vec![b'a', b'b'],
         6..=7 => vec![b'a', b'b', b'c'],
@@ -255,8 +258,87 @@ pub fn byte_case(rng: &mut Rng, max_hay: usize) -> (u8, [u8; 3], Vec<u8>) {
 /// Adversarial (needle, haystack) families at a requested size, for the cost
 /// property.
 pub fn cost_pair(rng: &mut Rng, n: usize, m: usize) -> (Vec<u8>, Vec<u8>, &'static str) {
+    let (needle, mut hay, name) = cost_pair_inner(rng, n, m);
+    // sometimes first wear the adaptive prefilter out (>= 50 candidates that
+    // skip < 8 bytes each), so that the body is searched without it
+    if rng.chance(1, 3) && needle.len() >= 2 {
+        let reps = rng.range(60, 200);
+        let mut prefix: Vec<u8> = Vec::new();
+        match rng.below(3) {
+            0 => {
+                for _ in 0..reps {
+                    prefix.extend_from_slice(&needle[..2]);
+                }
+            }
+            1 => {
+                // every distinct needle byte, over and over
+                let mut seen: Vec<u8> = Vec::new();
+                for &b in &needle {
+                    if !seen.contains(&b) {
+                        seen.push(b);
+                    }
+                }
+                for i in 0..reps * 2 {
+                    prefix.push(seen[i % seen.len()]);
+                }
+            }
+            _ => {
+                // near matches back to back: needle with its last byte spoiled
+                let cut = needle.len().min(6);
+                for _ in 0..reps {
+                    prefix.extend_from_slice(&needle[..cut]);
+                }
+            }
+        }
+        prefix.extend_from_slice(&hay);
+        hay = prefix;
+    }
+    (needle, hay, name)
+}
+
+fn cost_pair_inner(rng: &mut Rng, n: usize, m: usize) -> (Vec<u8>, Vec<u8>, &'static str) {
     let m = m.max(1).min(n.max(1));
-    match rng.below(9) {
+    match rng.below(14) {
+        12 | 13 => {
+            // the portable prefilter's worst case: a needle whose rare byte
+            // sits at a large offset, a haystack with a long candidate-free
+            // prefix (keeps the prefilter "effective") and then that rare byte
+            // at every other position
+            let m2 = m.min(rng.range(40, 255));
+            let mut needle = vec![b'e'; m2];
+            needle[m2 - 1] = b'Z';
+            if m2 >= 3 {
+                needle[m2 / 3] = b'q';
+            }
+            let split = n / 2;
+            let mut hay = vec![b'x'; n];
+            for i in split..n {
+                hay[i] = if i % 2 == 0 { b'Z' } else if i % 3 == 0 { b'q' } else { b'e' };
+            }
+            (needle, hay, "portable prefilter worst case")
+        }
+        9 => {
+            // b a^(m-1) in a^n: the right part matches everywhere, the left never
+            let mut needle = vec![b'a'; m];
+            needle[0] = b'b';
+            (needle, vec![b'a'; n], "b a^(m-1) in a^n")
+        }
+        10 => {
+            // u v^k with short u that breaks v's period, haystack v^N
+            let k = rng.range(1, 3.min(m));
+            let v = word(rng, k, b"ab");
+            let mut needle: Vec<u8> = (0..m).map(|i| v[i % k]).collect();
+            needle[0] = b'c';
+            let hay: Vec<u8> = (0..n).map(|i| v[i % k]).collect();
+            (needle, hay, "c v^k in v^N")
+        }
+        11 => {
+            // a^(m/2) b a^(m/2) in (a^(m/2) c)^r
+            let mut needle = vec![b'a'; m];
+            needle[m / 2] = b'b';
+            let hay: Vec<u8> = (0..n).map(|i| if i % (m / 2 + 1) == m / 2 { b'c' } else { b'a' }).collect();
+            (needle, hay, "a^k b a^k in (a^k c)^r")
+        }
         0 => {
             // a^m in (a^(m-1) b)^r
             let needle = vec![b'a'; m];
